@@ -90,21 +90,27 @@ def m_aff2axcodes(interp, aff, *a, **k):
 
 
 class _Proxy:
-    def __init__(self, dtype, rank):
-        self._dtype, self._rank = np.dtype(dtype), rank
-        self._slope, self._inter = 2.0, 1.0
+    """nibabel ArrayProxy as far as the code under contract uses it (assumed contract, probed natively by
+    tools/model_probes.py): `.dtype` is the ON-DISK type; indexing applies the header scaling, which
+    returns the on-disk type when (slope, inter) == (1, 0) and float64 otherwise."""
+
+    def __init__(self, dtype, rank, slope=1.0, inter=0.0):
+        self.dtype, self._rank = np.dtype(dtype), rank
+        self._slope, self._inter = slope, inter
 
     def __getitem__(self, idx):
         assert len(idx) == self._rank
-        return np.zeros((), self._dtype)[()]
+        if (self._slope, self._inter) == (1.0, 0.0) or self.dtype.names is not None:
+            return np.zeros((), self.dtype)[()]
+        return np.float64(0.0)
 
 
-def mk_img(c, dtype, rank):
+def mk_img(c, dtype, rank, slope=1.0, inter=0.0):
     shape = tuple(c.int(f"dim{k}", inp=True) for k in range(rank))
     for s in shape:
         c.assume(s >= 1)
     A = sym_matrix(c, "A")
-    img = types.SimpleNamespace(header=types.SimpleNamespace(get_data_shape=lambda: shape), dataobj=_Proxy(dtype, rank),
+    img = types.SimpleNamespace(header=types.SimpleNamespace(get_data_shape=lambda: shape), dataobj=_Proxy(dtype, rank, slope, inter),
                                 affine=array_from_list(A, np.float64))
     return img, shape, A
 
@@ -120,12 +126,16 @@ class NibabelImageToInfo(Contract):
     timeout_ms = 60000
     configs = (("uint8", 3, None), ("uint16", 4, None), ("float32", 3, None), ("int16", 3, None), ("float64", 4, None),
                ("rgb", 3, None), ("uint8", 3, "2,3,1"), ("uint8", 3, "1,0,0|gzip"), ("uint16", 3, "x,y"),
-               ("int32", 3, "input_max"), ("uint8", 3, "ignore_scaling"))
+               ("int32", 3, "input_max"), ("uint8", 3, "ignore_scaling"),
+               # header scaling present (scl_slope 2, scl_inter 1): the values are float64 unless scaling is ignored
+               ("uint8", 3, None, "scaled"), ("uint16", 4, None, "scaled"), ("float32", 3, None, "scaled"),
+               ("int16", 3, "ignore_scaling", "scaled"), ("uint16", 3, "input_max", "scaled"))
 
     def setup(self, c, cfg):
-        dt, rank, extra = cfg
-        self.cfg = cfg
-        self.img, self.shape, self.A = mk_img(c, RGB if dt == "rgb" else dt, rank)
+        dt, rank, extra = cfg[:3]
+        self.scaled = len(cfg) > 3
+        self.cfg = cfg[:3]
+        self.img, self.shape, self.A = mk_img(c, RGB if dt == "rgb" else dt, rank, *((2.0, 1.0) if self.scaled else (1.0, 0.0)))
         kw = {"options": {}}
         if extra and extra[0].isdigit():
             sh, _, gz = extra.partition("|")
@@ -157,6 +167,11 @@ class NibabelImageToInfo(Contract):
         exp_ch = 3 if dt == "rgb" else (self.shape[3] if rank == 4 else 1)
         yield ("num_channels(4th dimension, 3 for RGB, else 1)", info["num_channels"] == exp_ch)
         eff = "float64" if extra == "input_max" else ("uint8" if dt == "rgb" else dt)
+        if self.scaled and extra != "ignore_scaling":
+            eff = "float64"
+        if extra == "ignore_scaling":
+            px = self.img.dataobj
+            yield ("ignore_scaling-resets-the-proxy-to-slope-1-inter-0", (px._slope, px._inter) == (1.0, 0.0))
         holds = eff in NG_DATA_TYPES
         yield ("data_type-holds-the-values-or-is-flagged", (info["data_type"] == eff and imperfect is False) if holds
                else (info["data_type"] == "float32" and imperfect is True))
